@@ -1,11 +1,16 @@
 import Driver.Common
+import Driver.WinC18
+import Driver.WinGrp
+import Driver.WinFin
 open Lean Drv
 
+/-! `drv_win`: one executable for the Win family; dispatch on the op prefix. -/
 namespace DrvWin
 
-def handle (op : String) (_j : Json) : Except String Json := do
-  match op with
-  | _ => throw s!"unknown op {op}"
+def handle (op : String) (j : Json) : Except String Json :=
+  if op.startsWith "grp_" then DrvWinGrp.handle op j
+  else if op.startsWith "fin_" then DrvWinFin.handle op j
+  else DrvWinC18.handle op j
 
 end DrvWin
 
